@@ -37,6 +37,7 @@ type loopRT struct {
 	sliceObj map[*ssa.Phi]*Obj
 	logBase  int
 	headSnap *Snapshot
+	regs     []*Region // the declared regions of the loop, as evaluated at the header
 }
 
 func (fr *Frame) loc(instr ssa.Instruction) string {
@@ -209,6 +210,10 @@ func (s *State) run(fn *ssa.Function, args []Value, isRoot bool, fc *FuncContrac
 			}
 			if d, ok := fr.lastDpos[b]; ok && s.dpos > d {
 				fr.symIters[b]++
+				if s.eng.boundK > 0 && fr.symIters[b] > s.eng.boundK {
+					// bounded stand-in: executions with more iterations than the bound are not explored
+					panic(pathEnd{"bound"})
+				}
 				if fr.symIters[b] > symbolicUnrollCap {
 					unsup("loop at block %d of %s needs an invariant (iteration cap reached)", b.Index, fn)
 				}
@@ -521,6 +526,9 @@ func (fr *Frame) loopHeader(b, prev *ssa.BasicBlock, lrt *loopRT) {
 		for _, m := range lc.Modifies {
 			for _, r := range s.evalModifies(m, args()) {
 				s.havocRegion(r, "loop")
+				if r != nil {
+					lrt.regs = append(lrt.regs, r)
+				}
 			}
 		}
 		for _, c := range lc.Invariants {
@@ -545,6 +553,9 @@ func (fr *Frame) loopHeader(b, prev *ssa.BasicBlock, lrt *loopRT) {
 		g := s.evalClause(c, args(), s.entry)
 		s.oblige("loop", fmt.Sprintf("loop%d:preserve:%d", lrt.ord, i), g)
 	}
+	// frame of the loop: what one iteration changed in memory that existed at the header lies in the declared regions
+	// (those are what the cut havocked; anything else keeps its value from before the loop on the exit path)
+	s.loopFrameObligations(lrt)
 	for i, c := range lc.BodyEnsures {
 		s.callerLogBase = append(s.callerLogBase, lrt.logBase)
 		g := s.evalClause(c, args(), lrt.headSnap)
@@ -651,6 +662,41 @@ func (fr *Frame) exec(in ssa.Instruction) {
 		fr.env[x] = fr.get(x.Tuple).(*TupleV).Vals[x.Index]
 	case *ssa.Slice:
 		fr.env[x] = fr.sliceOp(x)
+	case *ssa.SliceToArrayPointer:
+		// only the conversion to an array VALUE, `[N]T(s)`, which go/ssa spells as this instruction followed at once by
+		// a load: the load sees a copy of the N elements taken now.  A kept pointer would alias the slice: unsupported.
+		at := x.Type().(*types.Pointer).Elem().Underlying().(*types.Array)
+		ok := x.Referrers() != nil && len(*x.Referrers()) > 0
+		if ok {
+			for _, r := range *x.Referrers() {
+				u, isLoad := r.(*ssa.UnOp)
+				if !isLoad || u.Op != token.MUL || u.Block() != x.Block() {
+					ok = false
+					continue
+				}
+				for k, bi := range x.Block().Instrs {
+					if bi == ssa.Instruction(x) && (k+1 >= len(x.Block().Instrs) || x.Block().Instrs[k+1] != ssa.Instruction(u)) {
+						ok = false
+					}
+				}
+			}
+		}
+		sl, isSl := fr.get(x.X).(*SliceV)
+		so, scalar := sortOf(at.Elem())
+		if !ok || !isSl || !scalar || so.Kind != KBV {
+			unsup("slice to array pointer that is kept (only [N]T(s) of scalars is modelled)")
+		}
+		n := Const(64, uint64(at.Len()))
+		s.check("safety:slice2array@"+fr.loc(in), CmpBV("bvsle", n, sl.Len))
+		var src Arr = &ArrZero{W: so.W}
+		off := Const(64, 0)
+		if sl.object() != nil {
+			src, off = s.sliceArr(sl), sl.Off
+		}
+		contents := &ArrayV{Arr: &ArrCopy{Base: &ArrZero{W: so.W}, DstOff: Const(64, 0), Src: src, SrcOff: off, N: n}, N: n, Elem: at.Elem()}
+		o := s.newObj(at, contents, "slice2array", true)
+		o.ReadOnly = true
+		fr.env[x] = &PtrV{Nil: False, Obj: o, Elem: x.Type().(*types.Pointer).Elem()}
 	case *ssa.MakeSlice:
 		et := x.Type().Underlying().(*types.Slice).Elem()
 		l := toIndex(fr.get(x.Len), x.Len.Type())
